@@ -111,8 +111,10 @@ def _check_result(sx, sh, rew, res, log, m, diff, g, tag=''):
             sx.prove_eq(d.get(AL[a], 0), F(1, len(G)), f'{tag}policy-uniform-over-greedy[{s},{a}]')
 
 
-def train(sx, shape, m, episodes, L, diffsym=True):
+def train(sx, shape, m, episodes, L, diffsym=True, unsorted_actions=False):
     sh = SHAPES[shape]
+    if unsorted_actions:
+        sh = sh.with_(alabels=['right', 'left'])      # listed in an order that is not the sorted order of the labels
     g = sh.gamma
     from msdm.algorithms.rmax import RMAX
     rew = _rewards(sx, sh)
@@ -241,6 +243,8 @@ def jobs(tier):
                     continue
                 yield ('train', dict(shape=i, m=m, episodes=ep, L=L), dict(o, cost=5))
     yield ('retrain_other_size', dict(m=1), o)
+    for i in ([0] if quick else range(len(SHAPES))):
+        yield ('train', dict(shape=i, m=1, episodes=2, L=2, unsorted_actions=True), dict(o, cost=5))
     for m in [1, 2, 3]:
         for cfg in range(5):
             yield ('observe_step', dict(m=m, cfg=cfg), o)
